@@ -39,7 +39,7 @@ def ServerTunnelHandler_resumeTunnel : List String := ["sessionMgr.ValidateTunne
 def auth_handleChallengePhase1 : List String := []
 def auth_handleChallengePhase2 : List String := ["secretKeyMgr.VerifyResponse", "conn.SetClientID", "conn.SetAuthenticated"]
 def auth_handleFirstConnection : List String := ["conn.SetClientID", "conn.SetAuthenticated"]
-def conncode_RecordMappingUsage : List String := ["portMappingService.GetPortMapping", "repos.LockPortMapping", "portMappingService.UpdatePortMapping"]
+def conncode_RecordMappingUsage : List String := ["repos.LockPortMapping", "portMappingService.GetPortMapping", "portMappingService.UpdatePortMapping"]
 def conncode_RevokeMapping : List String := ["repos.LockPortMapping", "portMappingService.GetPortMapping", "mapping.Revoke", "portMappingService.UpdatePortMapping"]
 def conncode_ValidateMapping : List String := ["portMappingService.GetPortMapping", "mapping.CanBeAccessedBy"]
 def forwardToSourceNode : List String := ["sendTunnelOpenResponseDirect", "tunnelConnMgr.CreateDedicatedConnection", "crossNodePool.Get", "WriteFrame", "runCrossNodeDataForwardDedicated"]
